@@ -28,7 +28,7 @@ extern bool g_returned;   /* the parser step executed `return data;` */
 #ifdef MASK_NULL
 #define PDS_LOOP_MASK_ASSIGNS
 #else
-#define PDS_LOOP_MASK_ASSIGNS , mask->size, mask->nw, __CPROVER_object_upto(mask->w, C09_WIN)
+#define PDS_LOOP_MASK_ASSIGNS , mask->size, mask->nw, mask->first, __CPROVER_object_upto(mask->w, C09_WIN)
 #endif
 
 /* texts up to 4 GiB (assumption; cbmc flags pointer arithmetic beyond 2^39 on fresh objects of symbolic size) */
